@@ -600,7 +600,13 @@ func (w *watch) watch(fsw *fsnotify.Watcher, m *sync.Mutex, refresh func() error
 				m.Unlock()
 				return
 			}
-			if event.Op == fsnotify.Remove && w.tracked[event.Name] {
+			if (event.Op == fsnotify.Remove || event.Op == fsnotify.Rename) && w.tracked[event.Name] {
+				if event.Op == fsnotify.Rename {
+					// A Spec directory renamed away is gone just like a removed
+					// one. The watch has followed it to its new place: drop it,
+					// we care about whatever shows up at the configured path.
+					_ = w.watcher.Remove(event.Name)
+				}
 				w.update(dirErrors, event.Name)
 			} else {
 				w.update(dirErrors)
